@@ -5,6 +5,7 @@ import FpVerif.Spec.JA3
 import FpVerif.Spec.Capture
 import FpVerif.Spec.H2Fp
 import FpVerif.Spec.JA4
+import FpVerif.Model.Cert
 /-!
 `fpdriver`: reads one operation per line on stdin, answers one line per operation on stdout with the
 MODEL's (or the SPECIFICATION's) result. The definitions evaluated here are the ones the theorems in
@@ -179,6 +180,33 @@ def h2concCheck (toks : List String) : Option String := do
     | _ => none
   pure (" ".intercalate outs)
 
+/-- C14: scripted step -> model step. `specMode`: the property's reading (every supported update style,
+including a directory swap that leaves the old directory, is noticed); otherwise the code + inotify contract. -/
+def certStep (specMode : Bool) (st : String) : Option Fp.Cert.Step := do
+  let num := fun (s : String) => s.toNat?
+  let c := st.toList
+  match c with
+  | 'w' :: 'c' :: r => some (.setCert (.half (← num (String.ofList r))) true)
+  | 'w' :: 'k' :: r => some (.setKey (.half (← num (String.ofList r))) true)
+  | 'r' :: 'c' :: r => some (.setCert (.half (← num (String.ofList r))) true)
+  | 'r' :: 'k' :: r => some (.setKey (.half (← num (String.ofList r))) true)
+  | ['t', 'c'] | ['g', 'c'] => some (.setCert .junk true)
+  | ['t', 'k'] | ['g', 'k'] => some (.setKey .junk true)
+  | 'p' :: 'c' :: _ => some (.setCert .junk true)
+  | 'p' :: 'k' :: _ => some (.setKey .junk true)
+  | 'S' :: r => do let k ← num (String.ofList r); some (.setBoth (.half k) (.half k) true)
+  | 's' :: r => do let k ← num (String.ofList r); some (.setBoth (.half k) (.half k) specMode)
+  | 'M' :: r =>
+    match (String.ofList r).splitOn "." with
+    | [a, b] => some (.setBoth (.half (← num a)) (.half (← num b)) true)
+    | _ => none
+  | _ => none
+
+def certRun (specMode : Bool) (toks : List String) : Option String := do
+  let steps ← (dashList (← kv toks "steps") ",").mapM (certStep specMode)
+  let s0 : Fp.Cert.St := { disk := { cert := .half 0, key := .half 0 }, served := 0 }
+  pure (",".intercalate ((0 :: Fp.Cert.trace s0 steps).map toString))
+
 def handle (cmd : String) (args : List String) : String :=
   match cmd, args with
   | "ser", toks =>
@@ -240,6 +268,8 @@ def handle (cmd : String) (args : List String) : String :=
     "ret=errclosed fast=1 listener=closed post=refused h1idle=closed inflight=" ++ (if infl then "done" else "n/a") ++
       " drain=" ++ (if infl then "ok" else "n/a")
   | "life", _ => "closed=1 released=1"    -- C11: the proxy cut / released the connection
+  | "cert", toks => (certRun true toks).getD "bad-op"
+  | "certm", toks => (certRun false toks).getD "bad-op"
   | "metrics", toks => (metricsSpec toks).getD "bad-op"
   | "e2emulti", toks => (e2eMultiExpected toks).getD "bad-op"
   | "e2e", toks => (e2eExpected toks).getD "bad-op"
